@@ -576,8 +576,24 @@ KERNEL_GROUPS = {
         ('mave_hgvs.py', 'get_mave_nt', 'k_get_mave_nt', None),
     ],
 }
-KERNEL_EXTRA_SOURCES = {'KernelsMave': ['enums.py']}
-KERNEL_IMPORTS = {'KernelsTargeton': ' Model.Targeton', 'KernelsMave': ' Model.Seq Model.Vcf Model.Mave Model.PyStr'}
+KERNEL_GROUPS['KernelsNames'] = [
+    # oligonucleotide names: Variant.get_oligo_name_frag with the properties it reads, and the name functions of meta_table.py
+    ('utils.py', 'clamp_non_negative', 'kn_clamp_non_negative', None),
+    ('utils.py', 'get_end', 'kn_get_end', None),
+    ('variant.py', '_raise_no_ref_alt', 'k_raise_no_ref_alt', None),
+    ('variant.py', 'Variant.ref_len', 'k_var_ref_len', 'variant'),
+    ('variant.py', 'Variant.ref_end', 'k_var_ref_end', 'variant'),
+    ('variant.py', 'Variant.type', 'k_var_type', 'variant'),
+    ('variant.py', 'Variant.get_oligo_name_frag', 'k_var_name_frag', 'variant'),
+    ('meta_table.py', 'get_transcript_frag', 'k_transcript_frag', None),
+    ('meta_table.py', 'get_sge_oligo_no_op_name', 'k_sge_no_op_name', None),
+    ('meta_table.py', 'get_sge_oligo_name', 'k_sge_oligo_name', None),
+    ('meta_table.py', 'get_cdna_oligo_name', 'k_cdna_oligo_name', None),
+]
+KERNEL_EXTRA_SOURCES = {'KernelsMave': ['enums.py'], 'KernelsNames': ['enums.py', 'constants.py']}
+KERNEL_CONSTS = {'KernelsNames': ('REVCOMP_OLIGO_NAME_SUFFIX',)}
+KERNEL_IMPORTS = {'KernelsTargeton': ' Model.Targeton', 'KernelsMave': ' Model.Seq Model.Vcf Model.Mave Model.PyStr',
+                  'KernelsNames': ' Model.Seq Model.Vcf Model.Mave Model.PyStr'}
 
 
 def _kernel_extractor(name):
@@ -585,7 +601,7 @@ def _kernel_extractor(name):
         from . import pytrans
         targets = KERNEL_GROUPS[name]
         sources = {m: _src(m) for m in sorted({t[0] for t in targets} | set(KERNEL_EXTRA_SOURCES.get(name, [])))}
-        body = pytrans.translate(sources, targets)
+        body = pytrans.translate(sources, targets, KERNEL_CONSTS.get(name, ()))
         pre = '(* IntPatternBuilder(offset, span) *)\nRecord pt := mkPt { pt_offset : Z; pt_span : Z }.\n\n' if name == 'KernelsPattern' else ''
         return ('(* translated from the source by harness/pytrans.py *)\nFrom VV Require Import Model.Base Model.Pattern Model.Transcript' + KERNEL_IMPORTS.get(name, '') + '.\n'
                 'Definition fact_extracted : bool := true.\n' + pre + body)
